@@ -20,7 +20,7 @@ def main():
     ap.add_argument("--seed", type=int, default=0)
     a = ap.parse_args()
     import stix2
-    assert stix2.__file__.startswith("/repo/"), stix2.__file__
+    assert stix2.__file__.startswith(os.environ.get("VERIF_REPO", "/repo") + "/"), stix2.__file__
     try:
         mod = importlib.import_module(a.module)
         res = getattr(mod, a.func)(a.tier, a.seed)
